@@ -65,6 +65,10 @@ def build_reg(p):
         elif kind == 'one-row-off':
             q = y.copy()
             q[0] = q[0] + sc
+        elif kind == 'tail-off':       # errors concentrated in the last rows (a mean of block means differs)
+            q = y.copy()
+            m = max(1, n // 7)
+            q[n - m:] += sc * (1.0 + g.random((m, k)))
         else:
             raise ValueError(kind)
     dt = np.float32 if p['dtype'] == 'float32' else np.float64
@@ -134,6 +138,11 @@ def build_cls(p):
         elif kind == 'ulp-ties':       # differences of one ulp around 1/K
             P = np.full((n, K), 1.0 / K)
             P[np.arange(n), g.integers(0, K, size=n)] = np.nextafter(1.0 / K, 1.0)
+        elif kind == 'tail-wrong':     # good predictions first, confidently wrong ones in the last rows
+            z = g.standard_normal((n, K)) + onehot * 4.0
+            m = max(1, n // 7)
+            z[n - m:] = g.standard_normal((m, K)) + np.eye(K)[(y[n - m:] + 1) % K] * 4.0
+            P = normalise(np.exp(z - z.max(axis=1, keepdims=True)))
         elif kind == 'unnormalised':   # not a distribution (only metrics that do not insist are run)
             P = np.maximum(g.random((n, K)) * p.get('temp', 1.0), PMIN)
             P = np.minimum(P, 1.0)
@@ -295,7 +304,7 @@ def run_case(drv, p):
     res['nontrivial'] = None if trivial else [p.get('seed'), p.get('y'), p.get('pred'), p.get('proba'), dtype, p['family'],
                                                p.get('n'), p.get('K'), p.get('k')]
     res['dist'] = {'kind': p['kind'], 'dtype': dtype, 'pred': p.get('pred', 'grid'),
-                   'classes_or_outputs': (q.shape[1]), 'rows': ('1-5' if n_rows <= 5 else '6-20' if n_rows <= 20 else '21+'),
+                   'classes_or_outputs': (q.shape[1]), 'rows': ('1-5' if n_rows <= 5 else '6-20' if n_rows <= 20 else '21-100' if n_rows <= 100 else '8193+'),
                    'metric_evaluations': len(vals)}
     res['sample'] = {'params': {k: v for k, v in p.items() if k not in ('y', 'proba')} if n_rows > 8 else p, 'values': vals}
     return res
@@ -426,6 +435,17 @@ def gen_cases(run):
         cases.append(dict(family='classification', kind='cls', dtype='float64' if r.random() < 0.6 else 'float32', K=K,
                           n=K + r.choice([0, 1, 2, 5, 11, 30, 55]), imbalance=r.random() < 0.4,
                           temp=r.choice([0.3, 1.0, 3.0, 8.0]), pred=CLS_PREDS[i % len(CLS_PREDS)], seed=r.randint(0, 2 ** 31)))
+    # many rows, errors unevenly spread over the row order (an average of per-block averages is not the average)
+    for i in range(3 if quick else 16):
+        K = r.randint(2, 4)
+        cases.append(dict(family='many-rows', kind='cls', dtype='float64' if i % 2 == 0 else 'float32', K=K,
+                          n=r.choice([8193, 9000, 12289, 20001, 30011]), imbalance=r.random() < 0.4,
+                          pred='tail-wrong' if i % 4 != 3 else 'informative', temp=1.0, skip=['auc'],
+                          seed=r.randint(0, 2 ** 31)))
+    for i in range(2 if quick else 10):
+        cases.append(dict(family='many-rows', kind='reg', dtype='float64' if i % 2 == 0 else 'float32',
+                          n=r.choice([8193, 9000, 12289, 20001, 30011]), k=r.randint(1, 2), scale=r.choice([1e-3, 1.0, 1e3]),
+                          integer=False, noise=1.0, pred='tail-off' if i % 3 != 2 else 'random', seed=r.randint(0, 2 ** 31)))
     # rows that are not distributions: only the metrics that accept any scores
     for i in range(40 if quick else 500):
         K = r.randint(2, 5)
@@ -438,7 +458,7 @@ def gen_cases(run):
 def check(run):
     run.rule = ('real Metric.from_name(name).compute on torch tensors (float64 and float32) for the eight built-in metrics: '
                 'random / informative / perfect / constant / adversarial (anti, confident-wrong, tie-laden, outlier, '
-                'permuted) predictions, 1..3 outputs or 2..5 classes all present, entries >= 1e-6; EXHAUSTIVE: every label '
+                'permuted) predictions, and 8193..30011 rows with the errors concentrated in the last rows (AUC not run there), 1..3 outputs or 2..5 classes all present, entries >= 1e-6; EXHAUSTIVE: every label '
                 'vector over {0,1} of length <= 5 x every assignment of rows [1-p,p], p in {.25,.5,.75} (thorough: also '
                 '1e-6); an evaluation = one (targets, predictions) pair scored by every applicable metric; it is '
                 'non-trivial when the predictions do not score like the targets themselves')
@@ -458,9 +478,11 @@ def check(run):
     run.extra['allowances'] = {'mse/mae/brier/rmse': '(entries+8)*eps(dtype)*|value|', 'accuracy': '2*eps32*|value|',
                                'f1': '16*eps64', 'auc': '4*(rows+16)*eps64', 'logloss': 'eps(dtype)*((rows+8)*|value|+4)'}
     if run.driver_ok:
+        big = [c for c in cases if c['family'] == 'many-rows']
+        cases = [c for c in cases if c['family'] != 'many-rows']
         head, rest = cases[:10], cases[10:]
         run.rng.shuffle(rest)
-        results = core.pmap(MOD, [{'cases': c} for c in core.chunks(head + rest, 64)])
+        results = core.pmap(MOD, [{'cases': [c]} for c in big] + [{'cases': c} for c in core.chunks(head + rest, 64)])
         run.absorb('c16', results)
         run.extra['metric_evaluations'] = sum(int(k) * v for k, v in run.dist.get('metric_evaluations', {}).items())
 
